@@ -100,6 +100,13 @@ CHECKS = {
             "scheme, result and point count compared with the uninterrupted run; restored instance compared with the saved one.",
             "d=2; real estimators; dill persistence into a scratch directory.",
             "exhaustive interruption-point enumeration, differential oracle against the uninterrupted run"),
+    "C18": ("DESIGN.md 2/C18",
+            "Every operation sequence of depth 4 (thorough 5) over a 21-operation alphabet (scalings with/without override, factors, "
+            "shifts, revert, explorer-chosen shuffle permutations, boundary move, the three splits followed by concatenation, in-range / "
+            "duplicate / out-of-range removals, concatenation with a differently scaled copy) on 5 initial DataSets incl. empty, single, "
+            "ties and one-dimensional; lock-step with a reference model of the labelled multiset and the scaling attributes.",
+            "Known finding: concatenate never refuses different scalings. Exceptions on empty sets count as refusals.",
+            "exhaustive operation-sequence enumeration with reference model"),
 }
 
 NOT_YET = "check not built yet in this session; planned (see DESIGN.md section 2)"
